@@ -412,7 +412,9 @@ def default_move_spec():
     B = Grid.from_positions([20.0, 24.0], [1.0, 3.0])
     S = Grid.from_positions([-5.0, -4.0], [7.5])
     layout = Layout({"A": A, "B": B}, {"A"}, {"A", "B"}, {"A"}, special_grid={"S": S})
-    return ArchSpec(layout=layout, float_constants={"f0": 0.0, "fh": 0.5, "f3": 3.0}, int_constants={"n0": 0, "n1": 1, "n2": 2})
+    # "n2" and "fh" exist in both constant tables, with different values
+    return ArchSpec(layout=layout, float_constants={"f0": 0.0, "fh": 0.5, "f3": 3.0, "n2": 2.5},
+                    int_constants={"n0": 0, "n1": 1, "n2": 2, "fh": 7})
 
 
 ZONE_SHAPES = {"A": (3, 2), "B": (2, 2), "S": (2, 1)}
@@ -436,7 +438,7 @@ class MoveGen:
                      "early_return": False, "parallel": True, "devcalls": True, "gates": True, "fill": True,
                      "measure": True, "assert": 0.02, "cz_positional": 0.0, "args_dependent": 0.7,
                      "dynamic_call": 0.0, "dead_effect": 0.0, "wrong_kind": 0.0, "alias_subs": 0.0,
-                     "devfn_param": 0.0, "loop_return": 0.0}
+                     "devfn_param": 0.0, "loop_return": 0.0, "twin_devs": 0.0}
         if feat:
             self.feat.update(feat)
         self.counter = 0
@@ -646,6 +648,17 @@ class MoveGen:
                 pre.append(("assign", d, e))
                 env["dev"].append(d)
                 env["devkern"][d] = k["name"]
+                if self.rng.random() < self.feat["twin_devs"]:
+                    # a second device function over the same kernel with other tone lists, and one call of
+                    # each with identical constant operands
+                    d2 = self.fresh("d")
+                    xt2 = [i + 1 for i in xt] + [0]
+                    pre.append(("assign", d2, P("device_fn", L(k["name"]), P("list", *[L(i) for i in xt2]), P("list", *[L(i) for i in yt]))))
+                    env["dev"].append(d2)
+                    env["devkern"][d2] = k["name"]
+                    z = ("look", "trap", self.rng.choice(KNOWN["trap"]))
+                    n = L(self.rng.randrange(0, 3))
+                    pre += [("devcall", ("var", d), [z, n], []), ("devcall", ("var", d2), [z, n], [])]
         return pre
 
     def subroutine(self, name, kernels, subs, recursive=False):
@@ -688,12 +701,15 @@ class MoveGen:
         return {"name": name, "tweezer": False, "params": params, "body": body, "nested": {}, "kinds": kinds, "returns": returns,
                 "factory": (not recursive) and self.rng.random() < self.feat["alias_subs"]}
 
-    def program(self):
-        """-> (top-level fns in definition order (entry point last), argument tuples for the entry point)"""
-        self.counter = 0
+    def program(self, shared_subs=None, name="main", counter0=0):
+        """-> (top-level fns in definition order (entry point last), argument tuples for the entry point).
+        shared_subs: already defined subroutines the entry point may call (then none are generated)"""
+        self.counter = counter0
         kernels = [self.tweezer_kernel(f"tk{i}") for i in range(self.rng.randrange(1, 3))] if self.feat["devcalls"] else []
         subs = []
-        if self.feat["subs"]:
+        if shared_subs is not None:
+            subs = list(shared_subs)
+        elif self.feat["subs"]:
             for i in range(self.rng.randrange(0, 3)):
                 rec = self.feat["recursion"] and self.rng.random() < 0.3
                 subs.append(self.subroutine(f"sub{i}", kernels, subs, recursive=rec))
@@ -776,7 +792,7 @@ class MoveGen:
             body.append(("ret", ("var", self.rng.choice(env["grid"]))))
         elif r < 0.75:
             body.append(("ret", P("list", self.int_e(env, 1), self.float_e(env, 0))))
-        main = {"name": "main", "tweezer": False, "params": params, "body": body, "nested": nested, "kinds": ["int", "int", "bool"]}
+        main = {"name": name, "tweezer": False, "params": params, "body": body, "nested": nested, "kinds": ["int", "int", "bool"]}
         args = [(self.rng.randrange(0, 4), self.rng.randrange(0, 3), self.rng.random() < 0.5) for _ in range(3)]
         extra = []
         if getattr(self, "need_apply", False):
@@ -790,4 +806,6 @@ class MoveGen:
                           "params": [("f", "schedule.DeviceFunction"), ("z", "grid.Grid[Any, Any]"), ("k", "int")],
                           "body": [("devcall", ("var", "f"), [("var", "z"), ("var", "k")], [])], "nested": {},
                           "kinds": ["dev", "grid", "int"], "returns": None})
+        if shared_subs is not None:
+            subs = []
         return kernels + subs + extra + [main], args
